@@ -306,7 +306,7 @@ package memberlist
 //@   at call RemoveLabelHeaderFromPacket: set $pktLabel := res1
 //@   at call (*Memberlist).handleCommand: assert label-isolation [C16]: ite(m.config.SkipInboundLabelCheck, $pktLabel == "", $pktLabel == m.config.Label)
 //@   at call decryptPayload: assert label-isolation-dec [C16]: ite(m.config.SkipInboundLabelCheck, $pktLabel == "", $pktLabel == m.config.Label)
-//@   at call decryptPayload: assert aad-is-own-label [C14,C16]: bseq(data) == bseq(m.config.Label)
+//@   at call decryptPayload: assert aad-is-own-label [C12,C14,C16]: bseq(data) == bseq(m.config.Label)
 //@   at call (*Config).EncryptionEnabled: set $decErr := 1
 //@   at call (*Config).EncryptionEnabled: set $encOn := res
 //@   at call (*Keyring).GetKeys: set $installed := res
@@ -408,6 +408,7 @@ package memberlist
 //@   requires ok: mlNet(m) && from != nil
 //@   at call (*Memberlist).nextSeqNo: set $relaySeq := res
 //@   at call (*Memberlist).setAckHandler: assert relay-registers-fresh-seq [C19]: seqNo == $relaySeq
+//@   at call (*Memberlist).setAckHandler: assert relay-expires-with-probe [C19]: timeout == m.config.ProbeTimeout     // the pending record is dropped when the nack is due
 //@   at call (*Memberlist).encodeAndSendMsg: assert relay-pings-with-fresh-seq [C19]: msgType == pingMsg && typeIs(msg, *ping) && unbox(msg, *ping).SeqNo == $relaySeq && unbox(msg, *ping).Node == ind.Node
 
 // relay closures: success is relayed under the requester's number; the nack carries the requester's number
@@ -537,7 +538,7 @@ package memberlist
 //@   at call (*Config).EncryptionEnabled: set $encOn := res && m.config.GossipVerifyOutgoing
 //@   at call (*Keyring).GetPrimaryKey: set $primary := res
 //@   at call encryptPayload: assert seal-with-primary [C15,C17]: key == $primary && buflen(dst) == 0
-//@   at call encryptPayload: assert seal-aad-label [C14,C15]: bseq(data) == bseq(m.config.Label)
+//@   at call encryptPayload: assert seal-aad-label [C12,C14,C15]: bseq(data) == bseq(m.config.Label)
 //@   at call encryptPayload: set $encErr := res
 //@   at call (*bytes.Buffer).Bytes: set $wire := res
 //@   at call NodeAwareTransport.WriteToAddress: assert ciphertext-only [C15]: $encOn ==> $encErr == 0 && arg0 == $wire
@@ -823,7 +824,7 @@ package memberlist
 //@   at call RemoveLabelHeaderFromStream: set $strLabel := res1
 //@   at call (*Memberlist).readStream: set $streamErr := res3
 //@   at call (*Memberlist).rawSendMsgStream: assert tcp-ack-only-for-us [C03,C19]: $streamErr != 0 || p.Node == "" || p.Node == m.config.Name
-//@   at call (*Memberlist).readStream: assert label-isolation [C16]: ite(m.config.SkipInboundLabelCheck, $strLabel == "", $strLabel == m.config.Label) && streamLabel == m.config.Label
+//@   at call (*Memberlist).readStream: assert label-isolation [C12,C16]: ite(m.config.SkipInboundLabelCheck, $strLabel == "", $strLabel == m.config.Label) && streamLabel == m.config.Label
 //@   at call (*Memberlist).readRemoteState: assert cap-concurrent [C13]: $numConcurrent < maxPushPullRequests
 //@   at call (*Memberlist).sendLocalState: assert reply-only-if-merging [C09,C13]: $numConcurrent < maxPushPullRequests
 //@   at call (*Memberlist).readRemoteState: set $rrsErr := res3
@@ -839,7 +840,7 @@ package memberlist
 //@   at call (*Config).EncryptionEnabled: set $decErr := 1
 //@   at call (*Config).EncryptionEnabled: set $encOn := res
 //@   at call (*Memberlist).decryptRemoteState: set $decErr := res1
-//@   at call (*Memberlist).decryptRemoteState: assert stream-aad-label [C14,C16]: arg2 == streamLabel
+//@   at call (*Memberlist).decryptRemoteState: assert stream-aad-label [C12,C14,C16]: arg2 == streamLabel
 //@   ensures authenticated-only [C14]: result3 == nil && $encOn && m.config.GossipVerifyIncoming ==> $decErr == 0
 //@   ensures nn: result3 == nil ==> result1 != nil && result2 != nil
 
@@ -861,6 +862,7 @@ package memberlist
 //@   requires ok: mlNet(m) && bufConn != nil && dec != nil
 //@   at make header.Nodes: assert cap-nodes [C13,C09]: 0 <= n && n <= maxPushStateNodes
 //@   at make header.UserStateLen: assert cap-user [C13,C09]: 0 < n && n <= maxPushStateBytes
+//@   ensures-internal whole-user-state [C09,C12]: result3 == nil ==> len(result2) == ite(header.UserStateLen > 0, header.UserStateLen, 0)    // a stream cut inside the user state is an error, never a shorter state
 
 // C12: a reliable user message is handed to the delegate complete, and reading it fails only if decoding the header
 // or the underlying reader fails (however the stream fragments the payload), or the announced length is out of range
@@ -1220,6 +1222,7 @@ package memberlist
 //@ func (*Memberlist).Shutdown(m)
 //@   safety [C20]
 //@   requires ok: mlNet(m)
+//@   ensures down [C20]: m.shutdown == 1      // whatever the transport reports, the instance is marked shut down when Shutdown returns
 //@ func (*Memberlist).GetHealthScore(m)
 //@   safety [C20]
 //@   requires ok: mlNet(m)
